@@ -120,6 +120,24 @@ where
             return Ok(None);
         }
 
+        // Every sequence number below Retire Prior To that is still tracked costs an entry of the table
+        // and a RETIRE_CONNECTION_ID frame. An endpoint SHOULD allow for sending and tracking a number
+        // of RETIRE_CONNECTION_ID frames of at least twice the active_connection_id_limit, and MAY
+        // treat more of them as a connection error of type CONNECTION_ID_LIMIT_ERROR.
+        // See [Section 5.1.2](https://www.rfc-editor.org/rfc/rfc9000.html#section-5.1.2-6)
+        let to_be_retired = retire_prior_to.saturating_sub(self.cid_deque.offset());
+        if to_be_retired > self.active_cid_limit.saturating_mul(2) {
+            return Err(QuicError::new(
+                ErrorKind::ConnectionIdLimit,
+                frame.frame_type().into(),
+                format!(
+                    "{to_be_retired} connection ids to be retired at once exceed twice the active_cid_limit {}",
+                    self.active_cid_limit
+                ),
+            )
+            .into());
+        }
+
         let id = *frame.connection_id();
         let token = *frame.reset_token();
         self.cid_deque.insert(seq, Some((seq, id, token))).unwrap();
